@@ -43,8 +43,10 @@ CLAIMED["C10"] = dict(
          "STRICT evaluation (fails on reading a never-written register, a register >= max_reg_count or a missing input) returns "
          "exactly the SSA outputs for every input of the declared shape. Proof by a simulation invariant (live wires mapped "
          "injectively to registers holding their values; free list disjoint). The model is tied to register_circuit.rs by exact "
-         "structural correspondence (identical instruction lists) on random well-formed circuits and compiler output. That the "
-         "converted circuit passes Reg.validate is checked by correspondence only (theorem C10_valid not yet proved).",
+         "structural correspondence (identical instruction lists) on random well-formed circuits and compiler output. C10_valid: "
+         "the converted circuit passes the model of register_circuit::Circuit::validate (inputs and outputs present, every "
+         "register below the declared count, Input instructions at the position of the register they write, no read of an "
+         "unwritten register, every output written, instruction count within MAX_GATES).",
     design_ref="DESIGN.md §6 C10",
     note="trusted: Lean kernel; axioms propext/Classical.choice/Quot.sound; Model/RegAlloc.lean (HashMaps keyed by wire modelled "
          "as lists indexed by wire) tied by structural correspondence; u32 register numbers not modelled (Nat)",
